@@ -668,6 +668,15 @@ func TestC01Limiter(t *testing.T) {
 	maxSeen := map[*LimSUT]int64{}
 	driveLimiter(t, "C01L", []int{1, 2}, Scale(80, 1500), Scale(120, 250), limHooks{
 		fullDrain: true,
+		bursts:    2,
+		afterComplete: func(l *LimSUT, k int, oc int64, call []int64, now int64, fail func(sig, d string)) {
+			// the limit in force for the gate is the estimate the algorithm reported last (floored at 1), from the moment the update completed
+			if call != nil {
+				if want, got := max64(1, int64(l.Script.est)), l.S.Limit(); got != want {
+					fail("stale-limit", fmt.Sprintf("an update completed with estimate %d but the gate enforces %d", l.Script.est, got))
+				}
+			}
+		},
 		afterAcquire: func(l *LimSUT, key int64, ok bool, busy0, limit0 int64, fail func(sig, d string)) {
 			if ok != (busy0 < limit0) {
 				cls := "refused-with-room"
@@ -695,6 +704,14 @@ func busyOf(st core.Strategy) int {
 	return 0
 }
 
+func limitOf(st core.Strategy) int {
+	type b interface{ GetLimit() int }
+	if x, ok := st.(b); ok {
+		return x.GetLimit()
+	}
+	return -1
+}
+
 func TestC01Stress(t *testing.T) {
 	rep := NewReport("C01stress")
 	defer rep.Write(t)
@@ -708,7 +725,7 @@ func TestC01Stress(t *testing.T) {
 		}
 		sl := limit.NewSettableLimit("s", 2, nil)
 		lim, _ := limiter.NewDefaultLimiter(sl, 1e6, 1e6, 0, 10, st, nil, core.EmptyMetricRegistryInstance)
-		var holders, maxHolders, maxBusy, grants, refusals int64
+		var holders, maxHolders, maxBusy, grants, refusals, lostSets int64
 		const maxLimit = 3
 		stop := make(chan struct{})
 		var wg sync.WaitGroup
@@ -777,6 +794,7 @@ func TestC01Stress(t *testing.T) {
 		if maxBusy > maxLimit {
 			rep.Violate(stratNames[kind]+":stress-over-admission", fmt.Sprintf("the strategy counted %d tokens in flight with limits never above %d", maxBusy, maxLimit), map[string]interface{}{"kind": kind, "max_busy": maxBusy})
 		}
+
 		if maxHolders > maxLimit {
 			rep.Violate(stratNames[kind]+":stress-over-admission", fmt.Sprintf("%d simultaneous holders with limits never above %d", maxHolders, maxLimit), map[string]interface{}{"kind": kind, "max_holders": maxHolders})
 		}
@@ -845,12 +863,34 @@ func TestC01Stress(t *testing.T) {
 					}
 				}()
 			}
+			// the only setter: a SetLimit that has returned is in force, however busy the gate is
+			wg3.Add(1)
+			go func() {
+				defer wg3.Done()
+				for i := 0; ; i++ {
+					select {
+					case <-stop3:
+						ps.SetLimit(2)
+						return
+					default:
+					}
+					v := 1 + i%2
+					ps.SetLimit(v)
+					if got := ps.GetLimit(); got != v {
+						atomic.AddInt64(&lostSets, 1)
+					}
+					time.Sleep(20 * time.Microsecond)
+				}
+			}()
 			time.Sleep(dur / 4)
 			close(stop3)
 			wg3.Wait()
 			rep.Evaluations += int(n3)
 			if max3 > 2 {
 				rep.Violate("precise:stress-over-admission", fmt.Sprintf("precise strategy used directly: %d simultaneous holders with limit 2", max3), map[string]interface{}{"kind": kind, "max_holders": max3, "direct": true})
+			}
+			if n := atomic.LoadInt64(&lostSets); n > 0 {
+				rep.Violate("precise:stress-setlimit-lost", fmt.Sprintf("precise strategy used directly: %d SetLimit calls (single setter) had returned without the new limit being in force, while acquisitions were running", n), map[string]interface{}{"kind": kind, "direct": true})
 			}
 			if b := ps.GetBusyCount(); b != 0 {
 				rep.Violate("precise:stress-capacity-leak", fmt.Sprintf("precise strategy used directly: busy count %d with every token released", b), map[string]interface{}{"kind": kind, "direct": true})
